@@ -261,6 +261,7 @@ struct Config {
     std::uint32_t ncodes;
     char const* const* code_names;
     bool tiny; // gets the exhaustive op-pair enumeration
+    int pct{100}; // share of the per-configuration history budget (expensive configurations get less)
 };
 inline auto configs() -> std::vector<Config>&
 {
@@ -318,7 +319,7 @@ inline void run_histories(vf::Ctx& c, int quick_per_cfg, int thorough_per_cfg, i
             return k;
         });
         std::string sub = "histories/" + cfg.name;
-        vf::rc_check<OpsCase>(sub.c_str(), gen, per_cfg, 100, [&](OpsCase const& k) {
+        vf::rc_check<OpsCase>(sub.c_str(), gen, std::max(1, per_cfg * cfg.pct / 100), 100, [&](OpsCase const& k) {
             vf::eval("histories");
             auto d = run_case(k, 2);
             if (k.ops.size() >= 6) { vf::sample("histories", [&] { return describe(k); }); }
